@@ -4,6 +4,8 @@
 (* (real SHA-256 through the Native override); the harness replays every row   *)
 (* into bits.tx.tx / tx_deser.                                                 *)
 EXTENDS TxGrammar, Json, IOUtils, TLC, SequencesExt
+(* defined here, not in the grammar module: TLC evaluates zero-arity constants eagerly *)
+AllCases == UNION {CasesWithFirst(i) : i \in Ins}
 Row(x) == [t |-> x.t, u |-> x.u, ser |-> TxSer(x.t), txid |-> Txid(x.t), wtxid |-> Wtxid(x.t),
            segwit |-> HasWitness(x.t)]
 Rows == SetToSeq({Row(x) : x \in AllCases})
